@@ -72,7 +72,7 @@ theorem elabCall_rvalue {name : Nat} {args : IArgs} {ts : List ETy} {n : IExpr} 
   all_goals (simp only [Except.ok.injEq, Prod.mk.injEq] at h; obtain ⟨rfl, rfl⟩ := h; rfl)
 
 theorem elabUn_rvalue {o : UnOp} {e n : IExpr} {τ τ' : ETy} (ho : o ≠ .prefixIncrement ∧ o ≠ .prefixDecrement)
-    (h : elabUn o e τ = .ok (n, τ')) : τ'.vt = .rvalue := by
+    (h : elabUn Γ o e τ = .ok (n, τ')) : τ'.vt = .rvalue := by
   unfold elabUn at h
   cases o <;> simp only at h
   all_goals (first | (exact absurd rfl ho.1) | (exact absurd rfl ho.2) | skip)
